@@ -256,7 +256,7 @@ def run(harness_names: List[str], tier: str = "quick", jobs: int = 16, harness_t
             for h in sel:
                 res[h.name] = HarnessResult(h.name, h.fq, h.unit, h.klass, "undecided", f"scratch preparation failed: {e}", text=h.text)
             return res
-        args = ["-p", "dropshot", "-Z", "function-contracts", "-Z", "stubbing", "-Z", "unstable-options",
+        args = ["-p", "dropshot", "-Z", "function-contracts", "-Z", "stubbing", "-Z", "unstable-options", "-Z", "async-lib",
                 "--exact", "-j", str(jobs), "--output-format=terse", "--output-into-files",
                 "--harness-timeout", f"{harness_timeout}s"]
         for h in sel:
